@@ -120,10 +120,11 @@ def stepCore (c : Core) (args : List String) : Core × String × List Core :=
     let hasReady := !(readyWallets c0.P.led (walletsOf c0.V.keys)).isEmpty
     if !hasReady && c0.led.node.tipHeight > Gen.Updates.ffGap then
       -- fast-forward path: no intermediate crash points recorded on the model side
-      (c', if r.ok then "ok" else "err", [c0, c'])
+      (c', (if r.ok then "ok" else "err") ++ "\tok", [c0, c'])
     else
       let (_, _, acc) := mids (c0.led.node.tipHeight + 1) c0 [c0]
-      (c', if r.ok then "ok" else "err", acc)
+      -- spec: the wallet opens and its unfinished work is queued again
+      (c', (if r.ok then "ok" else "err") ++ "\tok", acc)
   | ["commits"] => (c, toString c.commits, [])
   -- histories with background work (import / removal): the ledger model does not cover them; their
   -- observations are `rec` ops that only the implementation's twin-vs-crash comparison looks at
